@@ -121,7 +121,6 @@ package services
 //@   nopanic
 //@   requires s != nil && s.client != nil && req != nil && tables_wf()
 
-
 //@ func (*publisherServer).Publish(s, ctx, req) (resp, err)
 //@   property C16
 //@   uses tables notifyspec
